@@ -382,6 +382,12 @@ func (c *Ctx) Finish() int {
 	for _, l := range lines {
 		fmt.Println(l)
 	}
+	if d := c.counters["replay_divergences"]; d > 0 && exit == 0 {
+		// a schedule could not be replayed: the exploration was not systematic, so "no violation" would not
+		// mean anything. Never a VIOLATION by itself; a violating (real) execution is reported as usual.
+		fmt.Printf("HARNESS-UNSOUND: %d schedule prefixes could not be replayed (nondeterminism not owned by the harness) and no violation was observed\n", d)
+		exit = 2
+	}
 	fmt.Printf("RESULT property=%s tier=%s violations=%d known=%d wall=%.1fs exhaustive=%v\n", c.ID, c.Tier, len(c.violations)-known, known, wall, cov["exhaustive"])
 	return exit
 }
